@@ -300,9 +300,14 @@ class WorldGen:
                 fat.append(a_ident('base'))
             emitted = not (s == 0 and arr)
             need = 0 if (packed or a == 0) else (-off) % a
-            if a > 1 and not packed and self.nearmiss is None and rng.random() < o.p_nearmiss * 0.25:
+            base_total = sum(b_.size for b_ in bases)
+            if a > 1 and not packed and self.nearmiss is None and rng.random() < o.p_nearmiss * (1.0 if (bases and not is_base and base_total % a) else 0.25):
                 # near miss: the field ends up at an offset that is not a multiple of its alignment
                 need = ((-off) % a + rng.choice([1, a // 2 or 1])) % a or 1
+                if bases and not is_base and base_total % a:
+                    # … but would be one if the bases in front of it were not counted
+                    need = (base_total - off) % a
+                    if (off + need) % a == 0: need = ((-off) % a + 1) % a or 1
                 self.nearmiss = 'misaligned-field'
                 if need % a == 0: need = 1
             r = rng.random()
